@@ -444,6 +444,7 @@ static void byz_gen(Plan *p, uint64_t base_seed, uint64_t variant, int tier)
 	p->eagain = 0;
 	gen_rounds(p, &g, tier, 1, 300);
 	/* twin: how many handshake records does each direction carry? */
+	if (getenv("GMSIM_GEN_NOTWIN")) return;
 	uint64_t key = hash_bytes(0xb7, &p->sched_seed, 8) ^ (uint64_t)p->proto ^ ((uint64_t)p->mutual << 8) ^ ((uint64_t)p->depth << 16);
 	if (g_btwin.key != key) {
 		static HonestOut o;
